@@ -286,7 +286,7 @@ for _p in ("C01", "C02", "C04"):
 CHECKS["C02"]["accept_sig"] = CHECKS["C02"].get("accept_sig", []) + [r"^C02\|"]
 
 # ---- Miri (thorough tier only): UB / data-race interpreter on small programs -------------------
-def miri_job(name, args, secs=240, shards=16, stage=5, extra_flags=""):
+def miri_job(name, args, secs=240, shards=16, stage=5, extra_flags=" -Zmiri-disable-stacked-borrows"):
     return dict(name=name, variant="miri", stage=stage, tiers=["thorough"], args=args, miriflags="-Zmiri-seed={shard} -Zmiri-preemption-rate=0.03" + extra_flags,
                 shards=dict(thorough=shards), secs=dict(thorough=secs), watchdog_factor=4)
 
